@@ -36,7 +36,7 @@ def rerun(ctx, case_lines):
 def simulate(ctx, cfg, num, depth, out_name, aril=0):
     """tlc -simulate on TagExprGen: every visited tree beyond the exhaustive depth is printed as an @@CASE line."""
     r = lib.tlc(ctx, "TagExprGen", cfg, workers=1, timeout=1500, simulate="num=%d" % num, depth=depth,
-                tag="sim%d_" % aril + cfg.replace(".cfg", ""), extra=["-aril", str(aril)])
+                tag="sim%d_" % aril + cfg.replace(".cfg", ""), extra=["-aril", str(aril)], heap="2g")
     if not r.ok:
         raise lib.Infra("simulation %s failed (rc=%d):\n%s" % (cfg, r.rc, "\n".join(
             l for l in r.out.splitlines() if "@@CASE" not in l)[-3000:]))
@@ -58,6 +58,20 @@ def simulate(ctx, cfg, num, depth, out_name, aril=0):
     if n == 0:
         raise lib.Infra("simulation %s produced no cases" % cfg)
     lib.log("simulated %d distinct deep cases with %s in %.1fs" % (n, cfg, r.wall))
+    return out, n
+
+
+def gen_cases(ctx, cfg, heap):
+    """lib.gen_cases with a heap cap (several JVMs run side by side; uncapped they were OOM-killed on a shared box)."""
+    out = os.path.join(ctx.scratch, "cases.ndjson")
+    r = lib.tlc(ctx, "TagExprGen", cfg, workers=1, timeout=2400, heap=heap, tag="gen_" + cfg.replace(".cfg", ""),
+                env={"VERIF_OUT": out, "VERIF_TIER": ctx.tier, "VERIF_SEED": ctx.seed})
+    if not r.ok or not os.path.exists(out):
+        raise lib.Infra("case generation %s failed (rc=%d):\n%s" % (cfg, r.rc, r.tail(60)))
+    n = sum(1 for _ in open(out))
+    if n == 0:
+        raise lib.Infra("case generation %s produced no cases" % cfg)
+    lib.log("generated %d cases with TagExprGen/%s in %.1fs" % (n, cfg, r.wall))
     return out, n
 
 
@@ -87,18 +101,18 @@ def run(ctx):
     # 2. cases.  (the four TLC runs are independent; they run side by side: one 4-worker + three 1-worker JVMs)
     nsim = 1 if q else 6                       # thorough: six seeded walks side by side (-seed ctx.seed -aril k)
     jobs = [
-        lambda: lib.gen_cases(ctx, "TagExprGen", "TagExprGen_%s.cfg" % tier, out_name="cases.ndjson", timeout=2400),
-        lambda: lib.spec_check(ctx, "TagExpr", "TagExpr_mc.cfg", workers=4, timeout=1500,
+        lambda: gen_cases(ctx, "TagExprGen_%s.cfg" % tier, "4g" if q else "8g"),
+        lambda: lib.spec_check(ctx, "TagExpr", "TagExpr_mc.cfg", workers=4, timeout=1500, heap="3g",
                                note="all sorted trees of depth<=3 (small alphabet) x 9 styles x field values: RoundTrip, "
                                     "StyleFree, SortSound, ChainFlat; documented examples as ASSUME"),
-        lambda: lib.spec_check(ctx, "TagExpr", "TagExpr_mc2.cfg", workers=1, timeout=1500,
+        lambda: lib.spec_check(ctx, "TagExpr", "TagExpr_mc2.cfg", workers=1, timeout=1500, heap="2g",
                                note="all sorted trees of depth<=2 over every operator, len/regexp/in and the full leaf alphabet"),
     ]
-    jobs.append(lambda: lib.spec_check(ctx, "TagExpr", "TagExpr_mc4.cfg", workers=2, timeout=1500,
+    jobs.append(lambda: lib.spec_check(ctx, "TagExpr", "TagExpr_mc4.cfg", workers=2, timeout=1500, heap="2g",
                                        note="in() with operator chains (<=2 binary operators) in every argument position, "
                                             "len($) inside arithmetic chains: same theorems"))
     if not q:
-        jobs.append(lambda: lib.spec_check(ctx, "TagExpr", "TagExpr_mc3.cfg", workers=4, timeout=2400,
+        jobs.append(lambda: lib.spec_check(ctx, "TagExpr", "TagExpr_mc3.cfg", workers=4, timeout=2400, heap="4g",
                                            note="every boolean-sorted tree with <=3 binary operators over all 13 operators"))
     with concurrent.futures.ThreadPoolExecutor(max_workers=5 if q else 11) as ex:
         futs = [ex.submit(j) for j in jobs]
